@@ -273,10 +273,11 @@ func AllocsOf(fn *ssa.Function, typ string) []*ssa.Alloc {
 // P names parameter i (receiver first) of fn as an access path, so that rule
 // expectations are positional and survive parameter renames.
 func P(fn *ssa.Function, i int) string {
-	if fn == nil || i >= len(fn.Params) {
+	prm := ParamAt(fn, i)
+	if prm == nil {
 		return "param:?"
 	}
-	return "param:" + fn.Params[i].Name()
+	return "param:" + prm.Name()
 }
 
 // ThroughClone looks through (*http.Request).Clone / WithContext: the copy
